@@ -100,6 +100,26 @@ func (h *Harness) onExportInvoke(ex *ExportState, combo string) {
 // stepInvariants run after every scheduler step (lock held).
 func (h *Harness) stepInvariants(quiescent bool) {
 	cfg := h.sc.Cfg
+	// reach probes: rare conditions the search should visit (counted once per run)
+	for _, t := range h.s.tasks {
+		if t.parked || t.exited {
+			continue
+		}
+		switch {
+		case t.Role == "caller" && t.Site == "consume.send" && !h.seen["q"]:
+			// released from consume.send, not parked again: blocked on a full queue
+			if t.Req != nil && !t.Req.Returned && !t.Req.Enqueued {
+				h.seen["q"] = true
+				h.probe("caller_blocked_on_full_queue")
+			}
+		case t.Role == "loop" && (t.Site == "send.acquire" || strings.HasPrefix(t.Site, "auto.shared")) && cfg.MaxConcurrency > 0 && h.inflightAll >= int(cfg.MaxConcurrency) && !h.seen["s"]:
+			h.seen["s"] = true
+			h.probe("loop_blocked_on_concurrency_limit")
+		case t.Role == "shutdown" && t.Site == "shutdown.wait" && !h.seen["w"]:
+			h.seen["w"] = true
+			h.probe("shutdown_waiting_for_exports")
+		}
+	}
 	if cfg.MaxConcurrency > 0 {
 		for c, n := range h.inflight {
 			if n > int(cfg.MaxConcurrency) {
